@@ -111,7 +111,7 @@ def run_config(ctx, c, rng, dtype, usebuf, events, meta, order_seed=None):
                     e.update({"ok": False, "block": [], "intact": False, "hops": [], "err": err})
                 events.append(e)
                 meta.append({"cfg": {"sh": shape, "np": nprocs, "layouts": layouts}, "pair": [a, b], "usebuf": usebuf,
-                             "dtype": np.dtype(dtype).name, "rank": rk,
+                             "dtype": dtype if isinstance(dtype, str) else np.dtype(dtype).name, "rank": rk,
                              "schedule": {"policy": policy, "seed": seed, "eager": eager}})
     res = MPI.run(n, sl.transpose_job, policy=policy, seed=seed, eager=eager,
                   args=(shape, nprocs, layouts, pairs, usebuf, dtype))
@@ -322,6 +322,8 @@ def run(ctx):
             combos.append((DTYPES[(i + 1) % 3], not bool(i % 2)))
         if what.startswith(("chain of five", "ring of six")):
             combos = [(DTYPES[i % 3], False), (DTYPES[(i + 1) % 3], True)]
+        if i % 4 == 0:
+            combos.append(("mixed", bool(i % 8)))          # one handler, payload type changing from call to call
         for dtype, usebuf in combos:
             run_config(ctx, c, rng, dtype, usebuf, events, meta, order_seed=rng.randint(0, 99) if i % 3 == 0 else None)
     ctx.log("replayed %d configurations -> %d recorded transpose calls" % (len(chosen), len(events)))
